@@ -1,5 +1,6 @@
 //! `circ-conf`: conformance harness for kaist-cp/circ (see /verif/DESIGN.md).
 mod alloc;
+mod ebrworld;
 mod rcdirected;
 mod rcrun;
 mod rcworld;
@@ -134,6 +135,44 @@ fn main() {
             };
             write_out(&out, &rows);
             println!("{{\"rows\":{},\"file\":{:?},\"kind\":{:?}}}", rows.len(), out, kind);
+        }
+        "ebr" => {
+            sched::install(ebrworld::ev_hook);
+            circ::verif::set_class_mask(circ::verif::site::CLASS_EBR);
+            std::panic::set_hook(Box::new(|_| {}));
+            let seed: u64 = arg(&args, "--seed", 1);
+            let n: usize = arg(&args, "--n", 100);
+            let threads: usize = arg(&args, "--threads", 3);
+            let ops: usize = arg(&args, "--ops", 8);
+            let fam = sarg(&args, "--family", "");
+            let only: i64 = arg(&args, "--only", -1);
+            let out = sarg(&args, "--out", "ebr.ndjson");
+            let mut ctl = ebrworld::Ctl::new(threads);
+            let mut ran = 0;
+            if !fam.is_empty() {
+                ran += ebrworld::run_family(&mut ctl, &fam);
+            }
+            for i in 0..n {
+                if only >= 0 && only as usize != i {
+                    continue;
+                }
+                let mut rng = sched::Rng::new(seed.wrapping_mul(1_000_003).wrapping_add(i as u64));
+                let exits = rng.chance(1, 3);
+                ebrworld::run_random(&mut ctl, &mut rng, &format!("rand:ebr:{}:{}:{}:{}", seed, i, threads, ops), ops, exits);
+                ran += 1;
+            }
+            write_out(&out, &ctl.out);
+            println!(
+                "{{\"runs\":[{{\"file\":{:?},\"vocab\":\"ebr:{}\",\"threads\":{},\"scenarios\":{},\"aborted\":0,\"lines\":{},\"sites\":{{{}}},\"ops\":{{{}}}}}]}}",
+                out,
+                fam,
+                threads,
+                ran,
+                ctl.out.len(),
+                ctl.site_hits.iter().map(|(k, v)| format!("\"{}\":{}", k, v)).collect::<Vec<_>>().join(","),
+                ctl.op_hits.iter().map(|(k, v)| format!("\"{}\":{}", k, v)).collect::<Vec<_>>().join(",")
+            );
+            ctl.quit();
         }
         _ => {
             eprintln!("usage: circ-conf rc-random --seed N --n N --threads N --ops N --vocab V --out FILE");
